@@ -309,6 +309,88 @@ Fixpoint sendpb_seq (skip_empty : bool) (ret : option reply) (servers : list rep
   | r :: rest => let (ret', seen) := sendpb skip_empty ret r in seen :: sendpb_seq skip_empty ret' rest
   end.
 
+(* ---------- Client.SendToAll ---------------------------------------------------------------- *)
+
+(* SendToAll(roster, path, buf) sends the request to every server of the roster, one after
+   the other, and returns one slot per server: msgs[i] is the reply of server i, or stays
+   empty when the request to server i failed (the errors are concatenated into one error).
+   [outs]: per server the reply, or None for an error. *)
+Fixpoint to_all_loop (i : nat) (outs : list (option reply)) (msgs : list (option reply)) : list (option reply) :=
+  match outs with
+  | [] => msgs
+  | o :: r => to_all_loop (S i) r (match o with Some _ => set_nth msgs i o | None => msgs end)
+  end.
+
+Definition send_to_all (outs : list (option reply)) : list (option reply) * bool (* err != nil *) :=
+  (to_all_loop 0 outs (repeat None (List.length outs)), existsb is_none outs).
+
+(* the variant that appends the successful replies only (kept for the refutation) *)
+Definition send_to_all_compact (outs : list (option reply)) : list (option reply) * bool :=
+  (flat_map (fun o => match o with Some r => [Some r] | None => [] end) outs, existsb is_none outs).
+
+(* ---------- a handler that keeps what it received ------------------------------------------- *)
+
+(* A store: Put(key, data) keeps the byte slice of its argument, Get(key) returns what is
+   kept.  The server hands every request to the handler in a buffer of its own
+   (ws.ReadMessage allocates per message), and the protobuf decoder lets []byte fields
+   point INTO that buffer; so what a handler keeps stays what the request carried.
+   [reuse_buf = true] is the variant with one read buffer per connection (kept for the
+   refutation): the next request on the same kept connection overwrites what earlier
+   requests of that connection left in the handler's hands.
+   An operation is issued by a client; [keeps]: does client c keep its connection. *)
+Inductive sopk := SPut (key data : string) | SGet (key : string).
+Record sop := SOp { so_client : nat; so_kind : sopk }.
+
+Inductive sval := VData (d : string) | VClobbered.
+(* key -> (value, the kept connection it arrived on, if any) *)
+Definition sstore := list (string * (sval * option nat)).
+
+Fixpoint slookup (k : string) (st : sstore) : option (sval * option nat) :=
+  match st with
+  | [] => None
+  | (k', v) :: r => if String.eqb k k' then Some v else slookup k r
+  end.
+
+Definition clobber (c : nat) (st : sstore) : sstore :=
+  map (fun e => match e with
+                | (k, (v, Some c')) => if Nat.eqb c c' then (k, (VClobbered, Some c')) else e
+                | _ => e end) st.
+
+Definition put_reply (k : string) : reply := ROk 7 (Msg k 0%Z false "").
+Definition get_reply (k : string) (d : string) : reply := ROk 8 (Msg k 0%Z false d).
+
+Definition store_step (reuse_buf : bool) (keeps : list bool) (st : sstore) (o : sop) : sstore * reply :=
+  let conn := match nth_error keeps (so_client o) with Some true => Some (so_client o) | _ => None end in
+  (* the request is read: with one buffer per connection, this overwrites the previous one *)
+  let st1 := match conn with Some c => if reuse_buf then clobber c st else st | None => st end in
+  match so_kind o with
+  | SPut k d => ((k, (VData d, conn)) :: st1, put_reply k)
+  | SGet k => (st1, match slookup k st1 with
+                    | Some (VData d, _) => get_reply k d
+                    | Some (VClobbered, _) => RErr EOther "clobbered"     (* some other bytes *)
+                    | None => get_reply k ""
+                    end)
+  end.
+
+Fixpoint store_run (reuse_buf : bool) (keeps : list bool) (st : sstore) (ops : list sop) : list reply :=
+  match ops with
+  | [] => []
+  | o :: r => let (st', rep) := store_step reuse_buf keeps st o in rep :: store_run reuse_buf keeps st' r
+  end.
+
+(* the specification of the store: Get returns the data of the last Put of that key; no
+   connection, no buffer *)
+Fixpoint store_spec (m : list (string * string)) (ops : list sop) : list reply :=
+  match ops with
+  | [] => []
+  | o :: r =>
+      match so_kind o with
+      | SPut k d => put_reply k :: store_spec ((k, d) :: m) r
+      | SGet k => get_reply k (match find (fun e => String.eqb k (fst e)) m with Some e => snd e | None => "" end)
+                  :: store_spec m r
+      end
+  end.
+
 (* ---------- callInterfaceFunc for both kinds of handler ---------------------------------- *)
 
 (* outcome of callInterfaceFunc; CCrash = the panic leaves the function (the goroutine,
